@@ -34,15 +34,17 @@ def run(tier, replay=None):
     v.replay_info = {"seed": vflib.seed(), "tier": tier}
     v.assumptions = [
         "the protocol tables of spec/Messages.tla (frozen transcription of the pinned commit, cross-checked against the repository's golden vectors) are the protocol",
-        "requests are observed at the transport boundary (the driver interface), i.e. what is handed to the network; that exactly these bytes reach the network is C06's Rig L run",
+        "requests are observed at the transport boundary (the driver interface), i.e. what is handed to the network; that exactly these bytes reach the network is C06's Rig L run; that exactly ONE request reaches it is counted at the sockets of a loopback farm (real driver, every reply-bearing operation over each path, strays ahead of the reply on the broadcast path)",
         "TZ=UTC for the harness process: time-zone effects on dates are C13's subject",
         "dates are logged as the civil date the argument value holds (time.Time.Date() of the value)",
     ]
     common.model_checks(v, [("MC_Wire", "MC_Wire.cfg", {"workers": 1}, "pass")])
     summ = common.harness_traces("c01", tier, shards=16 if tier == "thorough" else 8, env=env)
     common.validate(v, "Trace_Api", "Trace_Api.cfg", summ, key)
+    # "exactly one ... request reaches the network": counted at the sockets of a loopback farm, below the driver interface
+    common.kept_pass(v, tier)
     v.coverage["rule"] = ("sequences of accepted calls on one client over three client configurations: all 32x32 ordered pairs of operations "
                           "(x2 rounds quick, x12 thorough), every one-byte argument through all 256 values, all HH:mm values (step 7 quick / 1 thorough) in every HH:mm slot, "
                           "random in-domain tuples per operation, bit-walks of the serial number of every operation; distinct = distinct (operation, argument tuple)")
-    v.coverage["checker_cmd"] = "tlc Trace_Api (VF_TRACE=<shard>); tlc MC_Wire"
+    v.coverage["checker_cmd"] = "tlc Trace_Api (VF_TRACE=<shard>); tlc MC_Wire; tlc Trace_Api on the real-driver pass (ExactlyOneRequest)"
     return v.finish()
